@@ -1,18 +1,2105 @@
-//! C03 — not built yet.
+//! C03 — the wire decoder is crash-free, bounded and accepts exactly the
+//! well-formed messages.
+//!
+//! Every input of three stated spaces is decoded by the real
+//! `Message::from_octets` **in a child process** (`vcheck worker C03 serve`) on a
+//! thread with a 2 MiB stack and compared there with the independent iterative
+//! decoder of `refwire`.  The parent only hands out *job descriptors*
+//! (space + item range); the child regenerates the inputs from the same
+//! deterministic generator (`for_each_input`).  A child that dies or does not
+//! answer within the per-job time limit is a violation; the job is bisected
+//! (first over items, then over the materialised inputs of one item) down to
+//! the single input, which becomes the replay file.
+//!
+//! Spaces (see DESIGN section 6, C03):
+//!  * `short`    every byte string of length 0..2 (65 793 strings);
+//!  * `tails`    a 12-byte header for each count vector in a stated list,
+//!               followed by every tail of length 0..K over the 12-byte alphabet
+//!               `ALPHA12` (K = 6 quick / 7 thorough);
+//!  * `singles`, `pairs`, `triples`: token grammar (name shapes x types x class
+//!               x ttl); every base message plus every single deviation
+//!               (in-place patch from the deviation alphabet, truncation at every
+//!               byte); thorough: every pair of deviations on singles and pairs;
+//!  * `subst`    every single-byte substitution (position x 255 values) on a
+//!               200-message sub-corpus;
+//!  * `extremes` pointer ladders of every depth, names of every total length
+//!               250..260 built three ways, counts of 65 535 without payload,
+//!               65 535-byte messages.
+//!
+//! The generator is public because C04 (re-encoding of everything that decodes)
+//! and C16 (names that come off the wire) walk the same corpus.
+
 use crate::common::*;
-use serde_json::Value;
+use crate::refwire;
+use dns_types::protocol::types::*;
+use serde_json::{json, Value};
+use std::collections::BTreeMap;
+use std::io::{BufRead, BufReader, Read, Write};
+use std::process::{Child, ChildStdin, Command, Stdio};
+use std::sync::atomic::{AtomicBool, AtomicUsize, Ordering};
+use std::sync::mpsc::{channel, Receiver, RecvTimeoutError};
+use std::sync::Mutex;
+use std::time::{Duration, Instant};
 
-pub fn run(_ctx: &Ctx) -> i32 {
-    eprintln!("C03: check not built");
-    2
+// ---------------------------------------------------------------------------------------------
+// the corpus
+// ---------------------------------------------------------------------------------------------
+
+pub const ALPHA12: [u8; 12] = [
+    0x00, 0x01, 0x02, 0x05, 0x0c, 0x3f, 0x40, 0x61, 0x80, 0xbf, 0xc0, 0xff,
+];
+
+#[derive(Debug, Copy, Clone, Eq, PartialEq)]
+pub enum Space {
+    Short,
+    Tails,
+    Singles,
+    Pairs,
+    Triples,
+    Subst,
+    Extremes,
 }
 
-pub fn replay(_ctx: &Ctx, _v: &Value) -> i32 {
-    eprintln!("C03: check not built");
-    2
+pub const ALL_SPACES: [Space; 7] = [
+    Space::Short,
+    Space::Tails,
+    Space::Singles,
+    Space::Pairs,
+    Space::Triples,
+    Space::Subst,
+    Space::Extremes,
+];
+
+/// Order in which the spaces are worked through (so that a wall-clock cap
+/// cuts the bulk spaces, not the adversarial constructions).
+pub const SCHEDULE: [Space; 7] = [
+    Space::Extremes,
+    Space::Subst,
+    Space::Short,
+    Space::Singles,
+    Space::Pairs,
+    Space::Tails,
+    Space::Triples,
+];
+
+impl Space {
+    pub fn code(self) -> &'static str {
+        match self {
+            Space::Short => "short",
+            Space::Tails => "tails",
+            Space::Singles => "singles",
+            Space::Pairs => "pairs",
+            Space::Triples => "triples",
+            Space::Subst => "subst",
+            Space::Extremes => "extremes",
+        }
+    }
+    pub fn parse(s: &str) -> Option<Space> {
+        ALL_SPACES.iter().copied().find(|x| x.code() == s)
+    }
 }
 
-/// Entry point for `vcheck worker C03 <args...>` (child-process mode).
-pub fn worker(_args: &[String]) -> i32 {
-    2
+/// How an input was derived (for the outcome histogram and for the distinct
+/// count: `Base`, `Patch` and `Extreme` inputs are hashed and de-duplicated,
+/// `Plain` inputs are distinct by construction, the others are only counted).
+#[derive(Debug, Copy, Clone, Eq, PartialEq)]
+pub enum Class {
+    Plain,
+    Base,
+    Patch,
+    Trunc,
+    Pair,
+    Subst,
+    Extreme,
+}
+
+const CLASSES: [Class; 7] = [
+    Class::Plain,
+    Class::Base,
+    Class::Patch,
+    Class::Trunc,
+    Class::Pair,
+    Class::Subst,
+    Class::Extreme,
+];
+
+impl Class {
+    fn idx(self) -> usize {
+        CLASSES.iter().position(|c| *c == self).unwrap_or(0)
+    }
+    fn name(self) -> &'static str {
+        match self {
+            Class::Plain => "plain",
+            Class::Base => "base",
+            Class::Patch => "deviation1",
+            Class::Trunc => "truncation",
+            Class::Pair => "deviation2",
+            Class::Subst => "substitution",
+            Class::Extreme => "extreme",
+        }
+    }
+    fn hashed(self) -> bool {
+        matches!(self, Class::Base | Class::Patch | Class::Extreme)
+    }
+}
+
+// ---- tails ----------------------------------------------------------------
+
+const TAIL_VECTORS_QUICK: [[u8; 4]; 4] = [[1, 0, 0, 0], [0, 1, 0, 0], [1, 1, 0, 0], [1, 0, 0, 1]];
+
+fn tail_vectors(tier: Tier) -> Vec<[u8; 4]> {
+    match tier {
+        Tier::Quick => TAIL_VECTORS_QUICK.to_vec(),
+        Tier::Thorough => (0..16u8)
+            .map(|m| [m & 1, (m >> 1) & 1, (m >> 2) & 1, (m >> 3) & 1])
+            .collect(),
+    }
+}
+
+fn tail_maxlen(tier: Tier) -> usize {
+    tier.pick(6, 7)
+}
+
+fn tails_per_vector(k: usize) -> u64 {
+    let mut n = 0u64;
+    let mut p = 1u64;
+    for _ in 0..=k {
+        n += p;
+        p *= 12;
+    }
+    n
+}
+
+/// The fixed header of the `tails` space: the ID octets 01 61 form the label
+/// `a` when a pointer targets offset 0, offset 1 is a reserved label type,
+/// offset 2 (flags, zero) is a root label.
+fn tail_header(v: [u8; 4]) -> [u8; 12] {
+    [0x01, 0x61, 0, 0, 0, v[0], 0, v[1], 0, v[2], 0, v[3]]
+}
+
+fn tail_input(tier: Tier, item: u64, buf: &mut Vec<u8>) {
+    let per = tails_per_vector(tail_maxlen(tier));
+    let vectors = tail_vectors(tier);
+    let v = vectors[(item / per) as usize];
+    let mut r = item % per;
+    let mut len = 0usize;
+    let mut block = 1u64;
+    while r >= block {
+        r -= block;
+        block *= 12;
+        len += 1;
+    }
+    buf.clear();
+    buf.extend_from_slice(&tail_header(v));
+    let at = buf.len();
+    buf.resize(at + len, 0);
+    for i in (0..len).rev() {
+        buf[at + i] = ALPHA12[(r % 12) as usize];
+        r /= 12;
+    }
+}
+
+// ---- token grammar ----------------------------------------------------------
+
+#[derive(Debug, Copy, Clone, Eq, PartialEq)]
+pub enum Shape {
+    Root,
+    A,
+    AB,
+    L63,
+    N255,
+    Ptr,
+    LabelPtr,
+    PtrPtr,
+}
+
+pub const SHAPES: [Shape; 8] = [
+    Shape::Root,
+    Shape::A,
+    Shape::AB,
+    Shape::L63,
+    Shape::N255,
+    Shape::Ptr,
+    Shape::LabelPtr,
+    Shape::PtrPtr,
+];
+
+/// all 18 known types, then the unknown types 0, 252, 65535
+pub const TYPE_CODES: [u16; 21] = [
+    1, 2, 3, 4, 5, 6, 7, 8, 9, 10, 11, 12, 13, 14, 15, 16, 28, 33, 0, 252, 65535,
+];
+const CLASS_CODES: [u16; 3] = [1, 0, 255];
+const TTLS: [u32; 2] = [0, u32::MAX];
+const QTYPES: [u16; 5] = [1, 255, 252, 0, 65535];
+
+fn n_rvar(code: u16) -> usize {
+    match code {
+        1 | 28 => 1,
+        2 | 3 | 4 | 5 | 6 | 7 | 8 | 9 | 12 | 14 | 15 | 33 => 8,
+        _ => 3,
+    }
+}
+
+/// An in-place rewrite of one or two octets.
+#[derive(Debug, Copy, Clone)]
+pub struct Patch {
+    pub off: u32,
+    pub len: u8,
+    pub b: [u8; 2],
+}
+
+pub struct Built {
+    pub bytes: Vec<u8>,
+    pub patches: Vec<Patch>,
+    /// truncations (where a space takes them) start at this length; 0 in the
+    /// spaces that currently take truncations
+    pub trunc_from: usize,
+}
+
+struct Builder {
+    out: Vec<u8>,
+    /// starts of earlier names that begin with a label
+    plain: Vec<usize>,
+    /// offsets at which a two-octet pointer sits
+    ptrs: Vec<usize>,
+    prev_rdata: Option<usize>,
+    patches: Vec<Patch>,
+    trunc_from: usize,
+}
+
+impl Builder {
+    fn new() -> Self {
+        Builder {
+            out: Vec::with_capacity(640),
+            plain: Vec::new(),
+            ptrs: Vec::new(),
+            prev_rdata: None,
+            patches: Vec::new(),
+            trunc_from: 0,
+        }
+    }
+    fn u16(&mut self, v: u16) {
+        self.out.extend_from_slice(&v.to_be_bytes());
+    }
+    fn u32(&mut self, v: u32) {
+        self.out.extend_from_slice(&v.to_be_bytes());
+    }
+    fn p1(&mut self, off: usize, v: u8) {
+        if self.out[off] != v {
+            self.patches.push(Patch {
+                off: off as u32,
+                len: 1,
+                b: [v, 0],
+            });
+        }
+    }
+    fn p2(&mut self, off: usize, v: u16) {
+        let b = v.to_be_bytes();
+        if self.out[off] != b[0] || self.out[off + 1] != b[1] {
+            self.patches.push(Patch {
+                off: off as u32,
+                len: 2,
+                b,
+            });
+        }
+    }
+    fn header(&mut self, counts: [u16; 4]) {
+        self.u16(0x1234);
+        self.u16(0); // flags: offset 2 is a zero octet = a root label for pointers into the header
+        for (i, c) in counts.iter().enumerate() {
+            let off = 4 + 2 * i;
+            self.u16(*c);
+            // each count +1 / -1 / 65535
+            self.p2(off, c.wrapping_add(1));
+            if *c > 0 {
+                self.p2(off, c - 1);
+            }
+            self.p2(off, 65535);
+        }
+    }
+    fn label(&mut self, octets: &[u8]) {
+        let off = self.out.len();
+        self.out.push(octets.len() as u8);
+        self.out.extend_from_slice(octets);
+        // label length 64 / 0x80 / 0xBF
+        self.p1(off, 64);
+        self.p1(off, 0x80);
+        self.p1(off, 0xbf);
+    }
+    fn pointer(&mut self, target: usize, name_start: usize) {
+        let off = self.out.len();
+        self.u16(0xC000 | target as u16);
+        self.ptrs.push(off);
+        // to self, forward, into the header, into its own name, into the previous RDATA
+        self.p2(off, 0xC000 | off as u16);
+        self.p2(off, 0xC000 | (off + 2) as u16);
+        self.p2(off, 0xC000);
+        self.p2(off, 0xC000 | 11);
+        if name_start != off {
+            self.p2(off, 0xC000 | name_start as u16);
+            self.p2(off, 0xC000 | (name_start + 1) as u16);
+        }
+        if let Some(r) = self.prev_rdata {
+            self.p2(off, 0xC000 | r as u16);
+        }
+    }
+    /// false: the shape cannot be realised here (no earlier pointer to point at)
+    fn name(&mut self, s: Shape) -> bool {
+        let start = self.out.len();
+        match s {
+            Shape::Root => self.out.push(0),
+            Shape::A => {
+                self.label(b"A");
+                self.out.push(0);
+                self.plain.push(start);
+            }
+            Shape::AB => {
+                self.label(b"a");
+                self.label(b"B");
+                self.out.push(0);
+                self.plain.push(start);
+            }
+            Shape::L63 => {
+                self.label(&[b'x'; 63]);
+                self.out.push(0);
+                self.plain.push(start);
+            }
+            Shape::N255 => {
+                self.label(&[b'p'; 63]);
+                self.label(&[b'Q'; 63]);
+                self.label(&[b'r'; 63]);
+                self.label(&[b's'; 61]);
+                self.out.push(0);
+                self.plain.push(start);
+            }
+            Shape::Ptr => {
+                // the latest earlier name that starts with a label; without one,
+                // the zero flags octet in the header (= root)
+                let t = self.plain.last().copied().unwrap_or(2);
+                self.pointer(t, start);
+            }
+            Shape::LabelPtr => {
+                let t = self.plain.last().copied().unwrap_or(2);
+                self.label(b"c");
+                self.pointer(t, start);
+                self.plain.push(start);
+            }
+            Shape::PtrPtr => match self.ptrs.last().copied() {
+                Some(t) => self.pointer(t, start),
+                None => return false,
+            },
+        }
+        true
+    }
+    fn question(&mut self, s: Shape, qtype: u16, qclass: u16) -> bool {
+        if !self.name(s) {
+            return false;
+        }
+        self.u16(qtype);
+        self.u16(qclass);
+        true
+    }
+    fn rr(&mut self, owner: Shape, code: u16, rvar: usize, class: u16, ttl: u32) -> bool {
+        if rvar >= n_rvar(code) {
+            return false;
+        }
+        if !self.name(owner) {
+            return false;
+        }
+        self.u16(code);
+        self.u16(class);
+        self.u32(ttl);
+        let at = self.out.len();
+        self.u16(0);
+        let start = self.out.len();
+        let ok = match code {
+            1 => {
+                self.out.extend_from_slice(&[192, 0, 2, 1]);
+                true
+            }
+            28 => {
+                self.out.extend_from_slice(&[0x20, 1, 0xd, 0xb8, 0, 0, 0, 0, 0, 0, 0, 0, 0, 0, 0, 9]);
+                true
+            }
+            2 | 3 | 4 | 5 | 7 | 8 | 9 | 12 => self.name(SHAPES[rvar]),
+            6 => {
+                let ok = self.name(SHAPES[rvar]) && self.name(Shape::AB);
+                for v in [1u32, 2, 3, 4, u32::MAX] {
+                    self.u32(v);
+                }
+                ok
+            }
+            14 => self.name(SHAPES[rvar]) && self.name(Shape::A),
+            15 => {
+                self.u16(10);
+                self.name(SHAPES[rvar])
+            }
+            33 => {
+                self.u16(1);
+                self.u16(2);
+                self.u16(65535);
+                self.name(SHAPES[rvar])
+            }
+            _ => {
+                match rvar {
+                    0 => {}
+                    1 => self.out.push(7),
+                    _ => self.out.extend_from_slice(&[0xC0, 0x0C, 0x00, 0x3f, 0xff]),
+                }
+                true
+            }
+        };
+        if !ok {
+            return false;
+        }
+        let len = (self.out.len() - start) as u16;
+        self.out[at..at + 2].copy_from_slice(&len.to_be_bytes());
+        // RDLENGTH +1 / -1 / 0 / 65535
+        self.p2(at, len + 1);
+        if len > 0 {
+            self.p2(at, len - 1);
+        }
+        self.p2(at, 0);
+        self.p2(at, 65535);
+        self.prev_rdata = Some(start);
+        true
+    }
+    fn finish(self) -> Built {
+        Built {
+            bytes: self.out,
+            patches: self.patches,
+            trunc_from: self.trunc_from,
+        }
+    }
+}
+
+const N_SINGLES: u64 = 9 * 8 * 21 * 8 * 3 * 2;
+
+fn single_index(q: usize, owner: usize, t: usize, rvar: usize, class: usize, ttl: usize) -> u64 {
+    (((((q * 8 + owner) * 21 + t) * 8 + rvar) * 3 + class) * 2 + ttl) as u64
+}
+
+pub fn build_single(mut idx: u64) -> Option<Built> {
+    let ttl = (idx % 2) as usize;
+    idx /= 2;
+    let class = (idx % 3) as usize;
+    idx /= 3;
+    let rvar = (idx % 8) as usize;
+    idx /= 8;
+    let t = (idx % 21) as usize;
+    idx /= 21;
+    let owner = (idx % 8) as usize;
+    idx /= 8;
+    let q = idx as usize;
+    if q >= 9 {
+        return None;
+    }
+    let code = TYPE_CODES[t];
+    if rvar >= n_rvar(code) {
+        return None;
+    }
+    let section = (t + owner + q) % 3;
+    let mut counts = [u16::from(q > 0), 0, 0, 0];
+    counts[1 + section] = 1;
+    let mut b = Builder::new();
+    b.header(counts);
+    if q > 0 && !b.question(SHAPES[q - 1], QTYPES[(owner + t) % 5], CLASS_CODES[t % 3]) {
+        return None;
+    }
+    if !b.rr(SHAPES[owner], code, rvar, CLASS_CODES[class], TTLS[ttl]) {
+        return None;
+    }
+    Some(b.finish())
+}
+
+const SPLITS2: [[u16; 3]; 6] = [
+    [2, 0, 0],
+    [1, 1, 0],
+    [1, 0, 1],
+    [0, 2, 0],
+    [0, 1, 1],
+    [0, 0, 2],
+];
+
+fn n_pairs(tier: Tier) -> u64 {
+    2 * 168 * 168 * tier.pick(1, 6)
+}
+
+pub fn build_pair(tier: Tier, mut idx: u64) -> Option<Built> {
+    let split = match tier {
+        Tier::Quick => (idx % 6) as usize,
+        Tier::Thorough => {
+            let s = (idx % 6) as usize;
+            idx /= 6;
+            s
+        }
+    };
+    let r2 = (idx % 168) as usize;
+    idx /= 168;
+    let r1 = (idx % 168) as usize;
+    idx /= 168;
+    let q = idx as usize;
+    if q >= 2 {
+        return None;
+    }
+    let (o1, t1) = (r1 / 21, r1 % 21);
+    let (o2, t2) = (r2 / 21, r2 % 21);
+    let c1 = TYPE_CODES[t1];
+    let c2 = TYPE_CODES[t2];
+    let v1 = (o2 + t2) % n_rvar(c1);
+    let v2 = (o1 + t1) % n_rvar(c2);
+    let s = SPLITS2[split];
+    let mut b = Builder::new();
+    b.header([q as u16, s[0], s[1], s[2]]);
+    if q > 0 && !b.question(Shape::AB, 1, 1) {
+        return None;
+    }
+    if !b.rr(SHAPES[o1], c1, v1, 1, 0) {
+        return None;
+    }
+    if !b.rr(SHAPES[o2], c2, v2, 1, u32::MAX) {
+        return None;
+    }
+    Some(b.finish())
+}
+
+const SPLITS3: [[u16; 3]; 10] = [
+    [3, 0, 0],
+    [2, 1, 0],
+    [2, 0, 1],
+    [1, 2, 0],
+    [1, 1, 1],
+    [1, 0, 2],
+    [0, 3, 0],
+    [0, 2, 1],
+    [0, 1, 2],
+    [0, 0, 3],
+];
+
+fn n_triples(tier: Tier) -> u64 {
+    tier.pick(0, 168 * 168 * 168)
+}
+
+pub fn build_triple(idx0: u64) -> Option<Built> {
+    let mut idx = idx0;
+    let r3 = (idx % 168) as usize;
+    idx /= 168;
+    let r2 = (idx % 168) as usize;
+    idx /= 168;
+    let r1 = (idx % 168) as usize;
+    let rs = [r1, r2, r3];
+    let s = SPLITS3[(idx0 % 10) as usize];
+    let mut b = Builder::new();
+    b.header([2, s[0], s[1], s[2]]);
+    if !b.question(Shape::AB, 1, 1) || !b.question(Shape::Ptr, 255, 255) {
+        return None;
+    }
+    for i in 0..3 {
+        if i == 2 {
+            b.trunc_from = b.out.len();
+        }
+        let (o, t) = (rs[i] / 21, rs[i] % 21);
+        let others = rs[(i + 1) % 3] + rs[(i + 2) % 3];
+        let code = TYPE_CODES[t];
+        if !b.rr(SHAPES[o], code, others % n_rvar(code), 1, TTLS[i % 2]) {
+            return None;
+        }
+    }
+    Some(b.finish())
+}
+
+const N_SUBST: u64 = 200;
+
+/// The substitution sub-corpus: one message per (type, owner shape) with a
+/// question in front, plus 32 two-record messages.
+pub fn build_subst(tier: Tier, k: u64) -> Option<Built> {
+    if k < 168 {
+        let owner = (k % 8) as usize;
+        let t = (k / 8) as usize;
+        let q = if owner == 7 { 6 } else { 3 };
+        let rvar = ((k * 5 + 1) as usize) % n_rvar(TYPE_CODES[t]);
+        build_single(single_index(q, owner, t, rvar, 0, (k % 2) as usize))
+    } else {
+        let j = k - 168;
+        // spread over the pair space, question present
+        let n = 168 * 168;
+        let base = (j * 881 + 17) % n;
+        let idx = n + base; // q = 1
+        match tier {
+            Tier::Quick => build_pair(tier, idx),
+            Tier::Thorough => build_pair(tier, idx * 6 + (j % 6)),
+        }
+    }
+}
+
+fn apply(buf: &mut [u8], p: &Patch) {
+    let o = p.off as usize;
+    buf[o] = p.b[0];
+    if p.len == 2 {
+        buf[o + 1] = p.b[1];
+    }
+}
+
+fn restore(buf: &mut [u8], orig: &[u8], p: &Patch) {
+    let o = p.off as usize;
+    buf[o] = orig[o];
+    if p.len == 2 {
+        buf[o + 1] = orig[o + 1];
+    }
+}
+
+fn emit_with_deviations(built: &Built, two: bool, trunc: bool, f: &mut dyn FnMut(&[u8], Class)) {
+    let base = &built.bytes;
+    f(base, Class::Base);
+    let mut buf = base.clone();
+    for p in &built.patches {
+        apply(&mut buf, p);
+        f(&buf, Class::Patch);
+        restore(&mut buf, base, p);
+    }
+    if trunc {
+        for l in built.trunc_from..base.len() {
+            f(&base[..l], Class::Trunc);
+        }
+    }
+    if two {
+        let n = built.patches.len();
+        for i in 0..n {
+            let pi = built.patches[i];
+            apply(&mut buf, &pi);
+            for j in i + 1..n {
+                let pj = built.patches[j];
+                if pj.off == pi.off {
+                    continue;
+                }
+                apply(&mut buf, &pj);
+                f(&buf, Class::Pair);
+                restore(&mut buf, base, &pj);
+            }
+            // a patch followed by a truncation behind it
+            if trunc {
+                for l in (pi.off as usize + 1)..base.len() {
+                    f(&buf[..l], Class::Pair);
+                }
+            }
+            restore(&mut buf, base, &pi);
+        }
+    }
+}
+
+// ---- size extremes ----------------------------------------------------------
+
+#[derive(Debug, Copy, Clone)]
+pub enum Extreme {
+    /// kind 0: plain ladder ending in a root label (accepted); 1: every rung
+    /// carries a label (accepted up to 127 rungs); 2: plain ladder whose bottom
+    /// is a pointer to itself (rejected at the deepest level)
+    Ladder { depth: u32, kind: u8 },
+    /// a name of `total` octets: way 0 labels only, 1 labels + pointer,
+    /// 2 pointer chain in which every fragment carries labels
+    NameLen { total: u16, way: u8 },
+    /// 0..3: that count is 65535, 4: all four; `payload`: one root question follows
+    Counts { which: u8, payload: bool },
+    /// 65535-byte message with one maximal RDATA: 0 fits exactly, 1 RDLENGTH one
+    /// more than present, 2 type A with that RDLENGTH, 3 CNAME with that RDLENGTH
+    MaxRdata { variant: u8 },
+    /// 65535 octets of a fixed pattern
+    Fill { pattern: u8, header: bool },
+    MaxRecords,
+    MaxQuestions,
+    /// deepest ladder + as many records as fit whose owner points at its top
+    Quadratic,
+}
+
+/// rdata offset of the first record in the ladder layouts
+const LADDER_RDATA: usize = 12 + 1 + 10;
+
+pub fn max_ladder_depth(kind: u8) -> u32 {
+    // the last rung must start at an offset a pointer can address (< 16384)
+    if kind == 1 {
+        // rungs of 4 octets starting at LADDER_RDATA + 1
+        ((16383 - (LADDER_RDATA + 1)) / 4 + 1) as u32 + 1
+    } else {
+        ((16383 - (LADDER_RDATA + 1)) / 2 + 1) as u32 + 1
+    }
+}
+
+fn ladder(depth: u32, kind: u8, followers: usize) -> Vec<u8> {
+    // rungs = depth - 1 pointers stored in the RDATA of a NULL record; the owner
+    // of the following record is the top pointer (hop number `depth`).
+    let rungs = depth.saturating_sub(1) as usize;
+    let mut rdata: Vec<u8> = Vec::with_capacity(2 + rungs * 4);
+    let bottom = LADDER_RDATA;
+    if kind == 2 {
+        rdata.extend_from_slice(&(0xC000u16 | bottom as u16).to_be_bytes());
+    } else {
+        rdata.push(0);
+    }
+    let mut prev = bottom;
+    for _ in 0..rungs {
+        let here = LADDER_RDATA + rdata.len();
+        if kind == 1 {
+            rdata.push(1);
+            rdata.push(b'a');
+        }
+        rdata.extend_from_slice(&(0xC000u16 | prev as u16).to_be_bytes());
+        prev = here;
+    }
+    let mut m = Vec::with_capacity(64 + rdata.len() + followers * 12);
+    m.extend_from_slice(&[0x4c, 0x44, 0, 0, 0, 0]);
+    m.extend_from_slice(&((1 + followers.max(1)) as u16).to_be_bytes());
+    m.extend_from_slice(&[0, 0, 0, 0]);
+    m.push(0);
+    m.extend_from_slice(&[0, 10, 0, 1, 0, 0, 0, 0]);
+    m.extend_from_slice(&(rdata.len() as u16).to_be_bytes());
+    debug_assert_eq!(m.len(), LADDER_RDATA);
+    m.extend_from_slice(&rdata);
+    if followers == 0 {
+        m.extend_from_slice(&(0xC000u16 | prev as u16).to_be_bytes());
+        m.extend_from_slice(&[0, 1, 0, 1, 0, 0, 0, 0, 0, 4, 192, 0, 2, 1]);
+    } else {
+        for _ in 0..followers {
+            m.extend_from_slice(&(0xC000u16 | prev as u16).to_be_bytes());
+            m.extend_from_slice(&[0, 10, 0, 1, 0, 0, 0, 0, 0, 0]);
+        }
+    }
+    m
+}
+
+/// non-root labels whose encoding takes exactly `n` octets (n >= 2)
+fn labels_taking(n: usize, fill: u8) -> Vec<u8> {
+    let mut out = Vec::with_capacity(n);
+    let mut rem = n;
+    while rem > 0 {
+        let take = if rem > 64 && rem != 65 {
+            64
+        } else if rem == 65 {
+            63
+        } else {
+            rem
+        };
+        out.push((take - 1) as u8);
+        out.extend(std::iter::repeat(fill).take(take - 1));
+        rem -= take;
+    }
+    out
+}
+
+fn name_len_message(total: u16, way: u8) -> Vec<u8> {
+    let t = total as usize;
+    let mut m = vec![0x4e, 0x4c, 0, 0];
+    let q: u16 = match way {
+        0 => 1,
+        1 => 2,
+        _ => 3,
+    };
+    m.extend_from_slice(&q.to_be_bytes());
+    m.extend_from_slice(&[0, 0, 0, 0, 0, 0]);
+    let tail = [0u8, 1, 0, 1];
+    match way {
+        0 => {
+            m.extend_from_slice(&labels_taking(t - 1, b'k'));
+            m.push(0);
+            m.extend_from_slice(&tail);
+        }
+        1 => {
+            // first question: 200 octets; second: (t - 200) octets of labels + pointer
+            m.extend_from_slice(&labels_taking(199, b'm'));
+            m.push(0);
+            m.extend_from_slice(&tail);
+            m.extend_from_slice(&labels_taking(t - 200, b'N'));
+            m.extend_from_slice(&[0xC0, 12]);
+            m.extend_from_slice(&tail);
+        }
+        _ => {
+            m.extend_from_slice(&labels_taking(99, b'u'));
+            m.push(0);
+            m.extend_from_slice(&tail);
+            let second = m.len();
+            m.extend_from_slice(&labels_taking(100, b'v'));
+            m.extend_from_slice(&[0xC0, 12]);
+            m.extend_from_slice(&tail);
+            m.extend_from_slice(&labels_taking(t - 200, b'W'));
+            m.extend_from_slice(&(0xC000u16 | second as u16).to_be_bytes());
+            m.extend_from_slice(&tail);
+        }
+    }
+    m
+}
+
+pub fn extreme_items(tier: Tier) -> Vec<Extreme> {
+    let mut v = Vec::new();
+    for kind in 0..3u8 {
+        let max = max_ladder_depth(kind);
+        match tier {
+            Tier::Quick => {
+                for d in 1..=64 {
+                    v.push(Extreme::Ladder { depth: d, kind });
+                }
+                if kind == 1 {
+                    for d in [126, 127, 128, 129] {
+                        v.push(Extreme::Ladder { depth: d, kind });
+                    }
+                }
+                for d in [max / 2, max - 1, max] {
+                    v.push(Extreme::Ladder { depth: d, kind });
+                }
+            }
+            Tier::Thorough => {
+                for d in 1..=max {
+                    v.push(Extreme::Ladder { depth: d, kind });
+                }
+            }
+        }
+    }
+    for total in 250..=260u16 {
+        for way in 0..3u8 {
+            v.push(Extreme::NameLen { total, way });
+        }
+    }
+    for which in 0..5u8 {
+        v.push(Extreme::Counts { which, payload: false });
+        v.push(Extreme::Counts { which, payload: true });
+    }
+    for variant in 0..4u8 {
+        v.push(Extreme::MaxRdata { variant });
+    }
+    for pattern in 0..6u8 {
+        v.push(Extreme::Fill { pattern, header: false });
+        v.push(Extreme::Fill { pattern, header: true });
+    }
+    v.push(Extreme::MaxRecords);
+    v.push(Extreme::MaxQuestions);
+    v.push(Extreme::Quadratic);
+    v
+}
+
+pub fn build_extreme(e: Extreme) -> Vec<u8> {
+    match e {
+        Extreme::Ladder { depth, kind } => ladder(depth, kind, 0),
+        Extreme::NameLen { total, way } => name_len_message(total, way),
+        Extreme::Counts { which, payload } => {
+            let mut m = vec![0x43, 0x4e, 0, 0, 0, 0, 0, 0, 0, 0, 0, 0];
+            for i in 0..4 {
+                if which == 4 || which as usize == i {
+                    m[4 + 2 * i] = 0xff;
+                    m[5 + 2 * i] = 0xff;
+                }
+            }
+            if payload {
+                m.extend_from_slice(&[0, 0, 1, 0, 1]);
+            }
+            m
+        }
+        Extreme::MaxRdata { variant } => {
+            let room = 65535 - (12 + 1 + 10);
+            let mut m = vec![0x4d, 0x52, 0, 0, 0, 0, 0, 1, 0, 0, 0, 0, 0];
+            let code: u16 = match variant {
+                2 => 1,
+                3 => 5,
+                _ => 16,
+            };
+            m.extend_from_slice(&code.to_be_bytes());
+            m.extend_from_slice(&[0, 1, 0, 0, 0, 0]);
+            let rdl: usize = if variant == 1 { room + 1 } else { room };
+            m.extend_from_slice(&(rdl as u16).to_be_bytes());
+            m.resize(m.len() + room, if variant == 3 { 0 } else { b'x' });
+            debug_assert_eq!(m.len(), 65535);
+            m
+        }
+        Extreme::Fill { pattern, header } => {
+            let mut m: Vec<u8> = (0..65535usize)
+                .map(|i| match pattern {
+                    0 => 0x00,
+                    1 => 0xff,
+                    2 => 0xc0,
+                    3 => 0x3f,
+                    4 => {
+                        if i % 2 == 0 {
+                            0xc0
+                        } else {
+                            0x0c
+                        }
+                    }
+                    _ => (i & 0xff) as u8,
+                })
+                .collect();
+            if header {
+                m[..12].copy_from_slice(&[0x46, 0x49, 0, 0, 0, 1, 0, 1, 0, 1, 0, 1]);
+            }
+            m
+        }
+        Extreme::MaxRecords => {
+            let n = (65535 - 12) / 15;
+            let mut m = vec![0x4d, 0x58, 0x84, 0, 0, 0];
+            m.extend_from_slice(&(n as u16).to_be_bytes());
+            m.extend_from_slice(&[0, 0, 0, 0]);
+            for i in 0..n {
+                m.extend_from_slice(&[0, 0, 1, 0, 1, 0, 0, 0, 60, 0, 4, 10, 0]);
+                m.extend_from_slice(&(i as u16).to_be_bytes());
+            }
+            m
+        }
+        Extreme::MaxQuestions => {
+            let n = (65535 - 12) / 5;
+            let mut m = vec![0x4d, 0x51, 0, 0];
+            m.extend_from_slice(&(n as u16).to_be_bytes());
+            m.extend_from_slice(&[0, 0, 0, 0, 0, 0]);
+            for i in 0..n {
+                m.push(0);
+                m.extend_from_slice(&((i % 40) as u16).to_be_bytes());
+                m.extend_from_slice(&[0, 1]);
+            }
+            m.resize(65535, 0);
+            m
+        }
+        Extreme::Quadratic => {
+            let depth = max_ladder_depth(0);
+            let head = ladder(depth, 0, 1).len() - 12;
+            let followers = (65535 - head) / 12 + 1;
+            let mut f = followers;
+            loop {
+                let m = ladder(depth, 0, f);
+                if m.len() <= 65535 {
+                    return m;
+                }
+                f -= 1;
+            }
+        }
+    }
+}
+
+// ---- the public walk --------------------------------------------------------
+
+pub fn space_items(space: Space, tier: Tier) -> u64 {
+    match space {
+        Space::Short => 1 + 256 + 65536,
+        Space::Tails => tail_vectors(tier).len() as u64 * tails_per_vector(tail_maxlen(tier)),
+        Space::Singles => N_SINGLES,
+        Space::Pairs => n_pairs(tier),
+        Space::Triples => n_triples(tier),
+        Space::Subst => N_SUBST,
+        Space::Extremes => extreme_items(tier).len() as u64,
+    }
+}
+
+/// Items per job (the unit of child-process work and of bisection).
+fn job_size(space: Space, tier: Tier) -> u64 {
+    match space {
+        Space::Short => 70_000,
+        Space::Tails => 250_000,
+        Space::Singles => tier.pick(1024, 96),
+        Space::Pairs => tier.pick(1024, 96),
+        Space::Triples => 4096,
+        Space::Subst => 1,
+        Space::Extremes => tier.pick(24, 128),
+    }
+}
+
+/// Calls `f` with every input of item `item` of `space`.  Returns false when
+/// the index denotes no message (unrealisable shape combination).
+pub fn for_each_input(
+    space: Space,
+    tier: Tier,
+    item: u64,
+    f: &mut dyn FnMut(&[u8], Class),
+) -> bool {
+    for_each_input_opt(space, tier, item, true, f)
+}
+
+/// As `for_each_input`; with `trunc == false` the truncated inputs are left out
+/// (used by C04 and C16, which only want inputs that decode: a truncated
+/// message that still decodes is a shorter message of the same grammar).
+pub fn for_each_input_opt(
+    space: Space,
+    tier: Tier,
+    item: u64,
+    trunc: bool,
+    f: &mut dyn FnMut(&[u8], Class),
+) -> bool {
+    match space {
+        Space::Short => {
+            let b: Vec<u8> = if item == 0 {
+                vec![]
+            } else if item <= 256 {
+                vec![(item - 1) as u8]
+            } else {
+                let r = item - 257;
+                vec![(r >> 8) as u8, (r & 0xff) as u8]
+            };
+            f(&b, Class::Plain);
+            true
+        }
+        Space::Tails => {
+            if !trunc {
+                // callers that only want inputs that decode: with a record
+                // count of one nothing decodes (a record takes >= 11 octets,
+                // the tails have <= 7), so those count vectors are left out
+                let per = tails_per_vector(tail_maxlen(tier));
+                let v = tail_vectors(tier)[(item / per) as usize];
+                if v[1] + v[2] + v[3] > 0 {
+                    return true;
+                }
+            }
+            let mut buf = Vec::with_capacity(24);
+            tail_input(tier, item, &mut buf);
+            f(&buf, Class::Plain);
+            true
+        }
+        Space::Singles => match build_single(item) {
+            Some(b) => {
+                emit_with_deviations(&b, tier == Tier::Thorough, trunc, f);
+                true
+            }
+            None => false,
+        },
+        Space::Pairs => match build_pair(tier, item) {
+            Some(b) => {
+                // thorough: pairs of deviations on one split in six (the same
+                // records in the other splits differ in the counts only)
+                emit_with_deviations(&b, tier == Tier::Thorough && item % 6 == 0, trunc, f);
+                true
+            }
+            None => false,
+        },
+        Space::Triples => match build_triple(item) {
+            Some(b) => {
+                // base message + single in-place deviations only: the prefixes of
+                // a three-record message fail like those of the two-record ones
+                emit_with_deviations(&b, false, false, f);
+                true
+            }
+            None => false,
+        },
+        Space::Subst => match build_subst(tier, item) {
+            Some(b) => {
+                let mut buf = b.bytes.clone();
+                for pos in 0..buf.len() {
+                    let orig = buf[pos];
+                    for v in 0..=255u8 {
+                        if v != orig {
+                            buf[pos] = v;
+                            f(&buf, Class::Subst);
+                        }
+                    }
+                    buf[pos] = orig;
+                }
+                true
+            }
+            None => false,
+        },
+        Space::Extremes => {
+            let items = extreme_items(tier);
+            match items.get(item as usize) {
+                Some(e) => {
+                    let m = build_extreme(*e);
+                    f(&m, Class::Extreme);
+                    true
+                }
+                None => false,
+            }
+        }
+    }
+}
+
+/// Faster walk over a range for `Extremes` (avoids rebuilding the item list).
+fn for_each_in_range(
+    space: Space,
+    tier: Tier,
+    lo: u64,
+    hi: u64,
+    f: &mut dyn FnMut(&[u8], Class),
+) -> u64 {
+    let mut skipped = 0;
+    if space == Space::Extremes {
+        let items = extreme_items(tier);
+        for i in lo..hi.min(items.len() as u64) {
+            let m = build_extreme(items[i as usize]);
+            f(&m, Class::Extreme);
+        }
+        return 0;
+    }
+    for i in lo..hi {
+        if !for_each_input(space, tier, i, f) {
+            skipped += 1;
+        }
+    }
+    skipped
+}
+
+// ---------------------------------------------------------------------------------------------
+// the child: decode and compare
+// ---------------------------------------------------------------------------------------------
+
+const OUTCOMES: [&str; 8] = [
+    "accept",
+    "reject-no-id",
+    "reject-header-short",
+    "reject-truncated",
+    "reject-label-type",
+    "reject-pointer",
+    "reject-name-too-long",
+    "reject-rdlength",
+];
+
+fn outcome_idx(r: &Result<Message, refwire::RefErr>) -> usize {
+    match r {
+        Ok(_) => 0,
+        Err(e) => match e.kind {
+            refwire::RefErrKind::NoId => 1,
+            refwire::RefErrKind::HeaderShort => 2,
+            refwire::RefErrKind::Truncated => 3,
+            refwire::RefErrKind::LabelType => 4,
+            refwire::RefErrKind::Pointer => 5,
+            refwire::RefErrKind::NameTooLong => 6,
+            refwire::RefErrKind::RdLength => 7,
+        },
+    }
+}
+
+#[derive(Default)]
+struct JobAcc {
+    n: u64,
+    steps: u64,
+    skipped: u64,
+    hist: [[u64; 8]; 7],
+    nontrivial_plain: u64,
+    nontrivial_other: u64,
+    hashes: Vec<u64>,
+    viol_counts: BTreeMap<String, u64>,
+    viols: Vec<Value>,
+    details: Vec<Value>,
+    max_us: u64,
+    max_us_len: usize,
+    want_details: bool,
+    timing: bool,
+    no_hash: bool,
+}
+
+fn short_debug<T: std::fmt::Debug>(v: &T) -> String {
+    let s = format!("{v:?}");
+    if s.len() > 600 {
+        let mut cut = 600;
+        while !s.is_char_boundary(cut) {
+            cut -= 1;
+        }
+        format!("{}… ({} chars)", &s[..cut], s.len())
+    } else {
+        s
+    }
+}
+
+pub fn describe_input(b: &[u8]) -> String {
+    if b.len() <= 48 {
+        format!("{} ({} octets)", hex(b), b.len())
+    } else {
+        format!("{}… ({} octets)", hex(&b[..48]), b.len())
+    }
+}
+
+fn eval(acc: &mut JobAcc, bytes: &[u8], class: Class) {
+    acc.n += 1;
+    let (want, steps) = refwire::decode_counting(bytes);
+    acc.steps += steps;
+    let t0 = if acc.timing { Some(Instant::now()) } else { None };
+    let got = std::panic::catch_unwind(std::panic::AssertUnwindSafe(|| {
+        Message::from_octets(bytes)
+    }));
+    if let Some(t0) = t0 {
+        let us = t0.elapsed().as_micros() as u64;
+        if us > acc.max_us {
+            acc.max_us = us;
+            acc.max_us_len = bytes.len();
+        }
+    }
+    acc.hist[class.idx()][outcome_idx(&want)] += 1;
+    let nontrivial = bytes.len() >= 12 && bytes[4..12].iter().any(|b| *b != 0);
+    if nontrivial {
+        if class == Class::Plain {
+            acc.nontrivial_plain += 1;
+        } else if class.hashed() && !acc.no_hash {
+            acc.hashes.push(fnv64(bytes));
+        } else {
+            acc.nontrivial_other += 1;
+        }
+    }
+    let expect_id = if bytes.len() >= 2 {
+        Some(u16::from_be_bytes([bytes[0], bytes[1]]))
+    } else {
+        None
+    };
+    let mut problem: Option<(&'static str, String)> = None;
+    match &got {
+        Err(_) => problem = Some(("panic", "Message::from_octets panicked".into())),
+        Ok(Ok(m)) => match &want {
+            Ok(w) => {
+                if m != w {
+                    problem = Some((
+                        "value",
+                        format!("decoded value differs: impl {} reference {}", short_debug(m), short_debug(w)),
+                    ));
+                }
+            }
+            Err(e) => {
+                problem = Some((
+                    "accepts-malformed",
+                    format!("impl accepts ({}), reference rejects with {:?}", short_debug(m), e.kind),
+                ));
+            }
+        },
+        Ok(Err(e)) => {
+            if let Ok(w) = &want {
+                problem = Some((
+                    "rejects-well-formed",
+                    format!("impl rejects with {e:?}, reference accepts ({})", short_debug(w)),
+                ));
+            } else if e.id() != expect_id {
+                problem = Some((
+                    "error-id",
+                    format!("error {e:?} carries id {:?}, the input's first two octets give {expect_id:?}", e.id()),
+                ));
+            }
+        }
+    }
+    if acc.want_details {
+        acc.details.push(json!({
+            "input": describe_input(bytes),
+            "implementation": match &got { Err(_) => "PANIC".to_string(), Ok(r) => short_debug(r) },
+            "reference": short_debug(&want),
+            "reference_octets_examined": steps,
+        }));
+    }
+    if let Some((clause, text)) = problem {
+        *acc.viol_counts.entry(clause.to_string()).or_insert(0) += 1;
+        let have = acc.viols.iter().filter(|v| v["clause"] == clause).count();
+        if have < 3 {
+            acc.viols.push(json!({
+                "clause": clause,
+                "hex": hex(bytes),
+                "class": class.name(),
+                "text": text,
+            }));
+        }
+    }
+}
+
+fn acc_to_json(acc: &JobAcc) -> Value {
+    let mut hist = serde_json::Map::new();
+    for c in CLASSES {
+        for (o, name) in OUTCOMES.iter().enumerate() {
+            let n = acc.hist[c.idx()][o];
+            if n > 0 {
+                hist.insert(format!("{}/{}", c.name(), name), json!(n));
+            }
+        }
+    }
+    json!({
+        "n": acc.n,
+        "steps": acc.steps,
+        "skipped": acc.skipped,
+        "hist": hist,
+        "nontrivial_plain": acc.nontrivial_plain,
+        "nontrivial_other": acc.nontrivial_other,
+        "nhash": acc.hashes.len(),
+        "viol_counts": acc.viol_counts,
+        "viols": acc.viols,
+        "details": acc.details,
+        "max_us": acc.max_us,
+        "max_us_len": acc.max_us_len,
+    })
+}
+
+fn serve() -> i32 {
+    std::panic::set_hook(Box::new(|_| {}));
+    let stdin = std::io::stdin();
+    let mut input = stdin.lock();
+    let stdout = std::io::stdout();
+    let mut out = stdout.lock();
+    let mut line = String::new();
+    loop {
+        line.clear();
+        match input.read_line(&mut line) {
+            Ok(0) | Err(_) => return 0,
+            Ok(_) => {}
+        }
+        let words: Vec<&str> = line.split_whitespace().collect();
+        if words.is_empty() {
+            continue;
+        }
+        let mut acc = JobAcc::default();
+        match words[0] {
+            "G" | "T" if words.len() == 5 => {
+                let announce = words[0] == "T";
+                let space = match Space::parse(words[1]) {
+                    Some(s) => s,
+                    None => return 2,
+                };
+                let tier = if words[2] == "thorough" { Tier::Thorough } else { Tier::Quick };
+                let lo: u64 = words[3].parse().unwrap_or(0);
+                let hi: u64 = words[4].parse().unwrap_or(0);
+                acc.timing = space == Space::Extremes;
+                acc.no_hash = space == Space::Triples;
+                let mut ordinal = 0u64;
+                let mut f = |b: &[u8], c: Class| {
+                    if announce {
+                        // unbuffered: the last number on stderr names the input
+                        // that was being decoded when the process died
+                        let _ = std::io::stderr().write_all(format!("{ordinal}\n").as_bytes());
+                        ordinal += 1;
+                    }
+                    eval(&mut acc, b, c)
+                };
+                let skipped = for_each_in_range(space, tier, lo, hi, &mut f);
+                acc.skipped = skipped;
+            }
+            "X" if words.len() == 2 => {
+                let n: usize = words[1].parse().unwrap_or(0);
+                acc.want_details = n <= 4;
+                acc.timing = true;
+                let mut l = String::new();
+                for _ in 0..n {
+                    l.clear();
+                    if input.read_line(&mut l).unwrap_or(0) == 0 {
+                        return 2;
+                    }
+                    let bytes = unhex(l.trim());
+                    eval(&mut acc, &bytes, Class::Plain);
+                }
+            }
+            "Q" => return 0,
+            _ => return 2,
+        }
+        let text = acc_to_json(&acc).to_string();
+        if out.write_all(text.as_bytes()).is_err() || out.write_all(b"\n").is_err() {
+            return 0;
+        }
+        let mut raw = Vec::with_capacity(acc.hashes.len() * 8);
+        for h in &acc.hashes {
+            raw.extend_from_slice(&h.to_le_bytes());
+        }
+        if out.write_all(&raw).is_err() || out.flush().is_err() {
+            return 0;
+        }
+    }
+}
+
+/// `vcheck worker C03 serve`: everything, including every call of the
+/// implementation's decoder, runs on one thread with a 2 MiB stack.
+pub fn worker(args: &[String]) -> i32 {
+    if args.first().map(String::as_str) != Some("serve") {
+        return 2;
+    }
+    // 2 MiB, as for a server worker thread.  VERIF_C03_STACK_KIB exists only to
+    // measure the margin by hand (the check itself never sets it).
+    let stack = std::env::var("VERIF_C03_STACK_KIB")
+        .ok()
+        .and_then(|s| s.parse::<usize>().ok())
+        .map(|k| k << 10)
+        .unwrap_or(2 << 20);
+    let h = std::thread::Builder::new()
+        .name("c03-decode".into())
+        .stack_size(stack)
+        .spawn(serve);
+    match h {
+        Ok(h) => h.join().unwrap_or(3),
+        Err(_) => 2,
+    }
+}
+
+// ---------------------------------------------------------------------------------------------
+// the parent: jobs, children, bisection
+// ---------------------------------------------------------------------------------------------
+
+struct Proc {
+    child: Child,
+    stdin: Option<ChildStdin>,
+    rx: Receiver<Option<(Value, Vec<u64>)>>,
+}
+
+fn spawn_child() -> Option<Proc> {
+    spawn_child_opt(false).map(|(p, _)| p)
+}
+
+/// With `trace`, the child's stderr is collected by a thread whose join handle
+/// is returned (it ends when the child has gone).
+fn spawn_child_opt(trace: bool) -> Option<(Proc, Option<std::thread::JoinHandle<Vec<u8>>>)> {
+    let exe = std::env::current_exe().ok()?;
+    let mut child = Command::new(exe)
+        .args(["worker", "C03", "serve"])
+        .stdin(Stdio::piped())
+        .stdout(Stdio::piped())
+        .stderr(if trace { Stdio::piped() } else { Stdio::null() })
+        .spawn()
+        .ok()?;
+    let err_reader = if trace {
+        let mut e = child.stderr.take()?;
+        Some(std::thread::spawn(move || {
+            // keep only the tail: the announcements of a big job are long
+            let mut tail: Vec<u8> = Vec::new();
+            let mut buf = vec![0u8; 1 << 16];
+            loop {
+                match e.read(&mut buf) {
+                    Ok(0) | Err(_) => break,
+                    Ok(n) => {
+                        tail.extend_from_slice(&buf[..n]);
+                        if tail.len() > 1 << 12 {
+                            let cut = tail.len() - (1 << 11);
+                            tail.drain(..cut);
+                        }
+                    }
+                }
+            }
+            tail
+        }))
+    } else {
+        None
+    };
+    let stdin = child.stdin.take();
+    let stdout = child.stdout.take()?;
+    let (tx, rx) = channel();
+    std::thread::spawn(move || {
+        let mut r = BufReader::with_capacity(1 << 16, stdout);
+        let mut line = String::new();
+        loop {
+            line.clear();
+            match r.read_line(&mut line) {
+                Ok(0) | Err(_) => {
+                    let _ = tx.send(None);
+                    return;
+                }
+                Ok(_) => {}
+            }
+            let v: Value = match serde_json::from_str(&line) {
+                Ok(v) => v,
+                Err(_) => {
+                    let _ = tx.send(None);
+                    return;
+                }
+            };
+            let nh = v["nhash"].as_u64().unwrap_or(0) as usize;
+            let mut raw = vec![0u8; nh * 8];
+            if r.read_exact(&mut raw).is_err() {
+                let _ = tx.send(None);
+                return;
+            }
+            let hashes = raw
+                .chunks_exact(8)
+                .map(|c| u64::from_le_bytes([c[0], c[1], c[2], c[3], c[4], c[5], c[6], c[7]]))
+                .collect();
+            if tx.send(Some((v, hashes))).is_err() {
+                return;
+            }
+        }
+    });
+    Some((Proc { child, stdin, rx }, err_reader))
+}
+
+enum JobResult {
+    Done(Value, Vec<u64>),
+    /// the child exited (text describes how)
+    Died(String),
+    Timeout,
+    Machinery(String),
+}
+
+/// user + system CPU seconds of a process, from /proc/<pid>/stat
+fn child_cpu_seconds(pid: u32) -> Option<f64> {
+    let text = std::fs::read_to_string(format!("/proc/{pid}/stat")).ok()?;
+    // fields after the parenthesised command name
+    let rest = &text[text.rfind(')')? + 2..];
+    let f: Vec<&str> = rest.split_whitespace().collect();
+    let utime: f64 = f.get(11)?.parse().ok()?;
+    let stime: f64 = f.get(12)?.parse().ok()?;
+    let hz = unsafe { libc::sysconf(libc::_SC_CLK_TCK) } as f64;
+    if hz <= 0.0 {
+        return None;
+    }
+    Some((utime + stime) / hz)
+}
+
+fn describe_status(child: &mut Child) -> String {
+    use std::os::unix::process::ExitStatusExt;
+    match child.wait() {
+        Ok(st) => {
+            if let Some(sig) = st.signal() {
+                let name = match sig {
+                    6 => " (SIGABRT)",
+                    7 => " (SIGBUS)",
+                    9 => " (SIGKILL)",
+                    11 => " (SIGSEGV)",
+                    _ => "",
+                };
+                format!("killed by signal {sig}{name}")
+            } else {
+                format!("exit status {}", st.code().unwrap_or(-1))
+            }
+        }
+        Err(e) => format!("wait failed: {e}"),
+    }
+}
+
+impl Proc {
+    fn run(&mut self, request: &[u8], timeout: Duration) -> JobResult {
+        let ok = match self.stdin.as_mut() {
+            Some(s) => s.write_all(request).and_then(|_| s.flush()).is_ok(),
+            None => false,
+        };
+        if !ok {
+            // the child may already be dead
+            let _ = self.child.kill();
+            return JobResult::Died(describe_status(&mut self.child));
+        }
+        // The limit is on the CPU time the child spends on this job (robust
+        // against a loaded machine); a child that burns no CPU and does not
+        // answer (deadlock) is caught by a wall-clock limit ten times as long.
+        let cpu0 = child_cpu_seconds(self.child.id());
+        let started = Instant::now();
+        loop {
+            match self.rx.recv_timeout(Duration::from_millis(200)) {
+                Ok(Some((v, h))) => return JobResult::Done(v, h),
+                Ok(None) => return JobResult::Died(describe_status(&mut self.child)),
+                Err(RecvTimeoutError::Disconnected) => return JobResult::Died(describe_status(&mut self.child)),
+                Err(RecvTimeoutError::Timeout) => {
+                    let used = match (cpu0, child_cpu_seconds(self.child.id())) {
+                        (Some(a), Some(b)) => b - a,
+                        _ => started.elapsed().as_secs_f64(),
+                    };
+                    if used > timeout.as_secs_f64() || started.elapsed() > timeout * 10 {
+                        let _ = self.child.kill();
+                        let _ = self.child.wait();
+                        return JobResult::Timeout;
+                    }
+                }
+            }
+        }
+    }
+    fn close(mut self) {
+        self.stdin.take();
+        let _ = self.child.wait();
+    }
+}
+
+#[derive(Debug, Copy, Clone)]
+struct Job {
+    space: Space,
+    lo: u64,
+    hi: u64,
+}
+
+fn g_request(tier: Tier, j: &Job) -> Vec<u8> {
+    format!("G {} {} {} {}\n", j.space.code(), tier.name(), j.lo, j.hi).into_bytes()
+}
+
+fn x_request(inputs: &[Vec<u8>]) -> Vec<u8> {
+    let mut s = format!("X {}\n", inputs.len()).into_bytes();
+    for i in inputs {
+        s.extend_from_slice(hex(i).as_bytes());
+        s.push(b'\n');
+    }
+    s
+}
+
+/// Run one request on a fresh child.
+fn run_fresh(request: &[u8], timeout: Duration) -> JobResult {
+    match spawn_child() {
+        Some(mut p) => {
+            let r = p.run(request, timeout);
+            if let JobResult::Done(..) = r {
+                p.close();
+            }
+            r
+        }
+        None => JobResult::Machinery("cannot spawn the worker process".into()),
+    }
+}
+
+fn failed(r: &JobResult) -> Option<String> {
+    match r {
+        JobResult::Done(..) => None,
+        JobResult::Died(s) => Some(format!("worker process {s}")),
+        JobResult::Timeout => Some("worker process did not answer within the time limit".into()),
+        JobResult::Machinery(s) => Some(format!("machinery: {s}")),
+    }
+}
+
+/// Find the single input on which a failing job dies: run the job once more in
+/// a child that announces every input before decoding it, take the last
+/// announcement, and confirm that this input alone makes a fresh child fail.
+/// Falls back to bisection if that does not pin it down.
+fn locate(tier: Tier, job: Job, timeout: Duration) -> Result<(Vec<u8>, String, u64), String> {
+    if let Some((mut p, Some(reader))) = spawn_child_opt(true) {
+        let mut req = g_request(tier, &job);
+        req[0] = b'T';
+        let r = p.run(&req, timeout);
+        if let JobResult::Done(..) = r {
+            p.close();
+            let _ = reader.join();
+            return Err("the failing job succeeded when run again".into());
+        }
+        drop(p);
+        let tail = reader.join().unwrap_or_default();
+        let last = String::from_utf8_lossy(&tail)
+            .lines()
+            .filter_map(|l| l.trim().parse::<u64>().ok())
+            .last();
+        if let Some(k) = last {
+            let mut n = 0u64;
+            let mut found: Option<(Vec<u8>, u64)> = None;
+            for item in job.lo..job.hi {
+                for_each_input(job.space, tier, item, &mut |b, _| {
+                    if n == k {
+                        found = Some((b.to_vec(), item));
+                    }
+                    n += 1;
+                });
+                if found.is_some() {
+                    break;
+                }
+            }
+            if let Some((input, item)) = found {
+                let r = run_fresh(&x_request(std::slice::from_ref(&input)), timeout);
+                if let Some(how) = failed(&r) {
+                    return Ok((input, how, item));
+                }
+            }
+        }
+    }
+    bisect(tier, job, timeout)
+}
+
+/// Bisect a failing job to a single input.  `Err` = not reproducible.
+fn bisect(tier: Tier, job: Job, timeout: Duration) -> Result<(Vec<u8>, String, u64), String> {
+    let (mut lo, mut hi) = (job.lo, job.hi);
+    let whole = run_fresh(&g_request(tier, &Job { space: job.space, lo, hi }), timeout);
+    let mut how = match failed(&whole) {
+        Some(h) => h,
+        None => return Err("the failing job succeeded when run again".into()),
+    };
+    while hi - lo > 1 {
+        let mid = lo + (hi - lo) / 2;
+        let r = run_fresh(&g_request(tier, &Job { space: job.space, lo, hi: mid }), timeout);
+        if let Some(h) = failed(&r) {
+            hi = mid;
+            how = h;
+        } else {
+            let r2 = run_fresh(&g_request(tier, &Job { space: job.space, lo: mid, hi }), timeout);
+            match failed(&r2) {
+                Some(h) => {
+                    lo = mid;
+                    how = h;
+                }
+                None => return Err(format!("neither half of items {lo}..{hi} fails on its own")),
+            }
+        }
+    }
+    let item = lo;
+    let mut inputs: Vec<Vec<u8>> = Vec::new();
+    for_each_input(job.space, tier, item, &mut |b, _| inputs.push(b.to_vec()));
+    let mut slice: &[Vec<u8>] = &inputs;
+    while slice.len() > 1 {
+        let mid = slice.len() / 2;
+        let r = run_fresh(&x_request(&slice[..mid]), timeout);
+        if let Some(h) = failed(&r) {
+            slice = &slice[..mid];
+            how = h;
+        } else {
+            let r2 = run_fresh(&x_request(&slice[mid..]), timeout);
+            match failed(&r2) {
+                Some(h) => {
+                    slice = &slice[mid..];
+                    how = h;
+                }
+                None => return Err(format!("neither half of the inputs of item {item} fails on its own")),
+            }
+        }
+    }
+    match slice.first() {
+        Some(one) => {
+            let r = run_fresh(&x_request(std::slice::from_ref(one)), timeout);
+            match failed(&r) {
+                Some(h) => Ok((one.clone(), h, item)),
+                None => Err(format!("the single input of item {item} does not fail on its own ({how})")),
+            }
+        }
+        None => Err(format!("item {item} has no inputs")),
+    }
+}
+
+#[derive(Default)]
+struct Totals {
+    n: u64,
+    steps: u64,
+    skipped: u64,
+    hist: BTreeMap<String, u64>,
+    nontrivial_plain: u64,
+    nontrivial_other: u64,
+    hashes: Vec<u64>,
+    viol_counts: BTreeMap<String, u64>,
+    viols: Vec<(String, Value)>,
+    max_us: u64,
+    max_us_len: u64,
+    jobs_done: u64,
+    per_space: BTreeMap<String, u64>,
+}
+
+fn absorb(t: &mut Totals, space: Space, v: &Value, hashes: Vec<u64>) {
+    let n = v["n"].as_u64().unwrap_or(0);
+    t.n += n;
+    *t.per_space.entry(space.code().to_string()).or_insert(0) += n;
+    t.steps += v["steps"].as_u64().unwrap_or(0);
+    t.skipped += v["skipped"].as_u64().unwrap_or(0);
+    if let Some(h) = v["hist"].as_object() {
+        for (k, c) in h {
+            *t.hist.entry(k.clone()).or_insert(0) += c.as_u64().unwrap_or(0);
+        }
+    }
+    t.nontrivial_plain += v["nontrivial_plain"].as_u64().unwrap_or(0);
+    t.nontrivial_other += v["nontrivial_other"].as_u64().unwrap_or(0);
+    t.hashes.extend(hashes);
+    if let Some(h) = v["viol_counts"].as_object() {
+        for (k, c) in h {
+            *t.viol_counts.entry(k.clone()).or_insert(0) += c.as_u64().unwrap_or(0);
+        }
+    }
+    if let Some(a) = v["viols"].as_array() {
+        for x in a {
+            if t.viols.len() < 400 {
+                t.viols.push((space.code().to_string(), x.clone()));
+            }
+        }
+    }
+    let us = v["max_us"].as_u64().unwrap_or(0);
+    if us > t.max_us {
+        t.max_us = us;
+        t.max_us_len = v["max_us_len"].as_u64().unwrap_or(0);
+    }
+    t.jobs_done += 1;
+}
+
+fn sample_of(space: Space, tier: Tier, item: u64, which: usize) -> Option<Value> {
+    let mut k = 0usize;
+    let mut out = None;
+    for_each_input(space, tier, item, &mut |b, c| {
+        if k == which {
+            let (r, steps) = refwire::decode_counting(b);
+            out = Some(json!({
+                "space": space.code(),
+                "item": item,
+                "derivation": c.name(),
+                "input": describe_input(b),
+                "reference": short_debug(&r),
+                "octets_examined": steps,
+            }));
+        }
+        k += 1;
+    });
+    out
+}
+
+pub fn run(ctx: &Ctx) -> i32 {
+    let tier = ctx.tier;
+    let timeout = Duration::from_secs(tier.pick(10, 60));
+    let wall_cap = tier.pick(40.0, 565.0);
+
+    let mut jobs: Vec<Job> = Vec::new();
+    let mut items_total: BTreeMap<String, u64> = BTreeMap::new();
+    for space in SCHEDULE {
+        let n = space_items(space, tier);
+        items_total.insert(space.code().to_string(), n);
+        let step = job_size(space, tier);
+        let mut lo = 0;
+        while lo < n {
+            let hi = (lo + step).min(n);
+            jobs.push(Job { space, lo, hi });
+            lo = hi;
+        }
+    }
+    // big jobs first (better packing); the seed only rotates the start
+    let njobs = jobs.len();
+    let next = AtomicUsize::new(0);
+    let stop = AtomicBool::new(false);
+    let totals = Mutex::new(Totals::default());
+    let failures: Mutex<Vec<(Job, String)>> = Mutex::new(Vec::new());
+    let machinery: Mutex<Vec<String>> = Mutex::new(Vec::new());
+    let cap_hit = AtomicBool::new(false);
+    let offset = if njobs == 0 { 0 } else { (ctx.seed as usize) % njobs };
+
+    std::thread::scope(|s| {
+        for _ in 0..ctx.threads.max(1) {
+            s.spawn(|| {
+                let mut proc: Option<Proc> = None;
+                loop {
+                    if stop.load(Ordering::Relaxed) {
+                        break;
+                    }
+                    if ctx.elapsed() > wall_cap {
+                        cap_hit.store(true, Ordering::Relaxed);
+                        break;
+                    }
+                    let k = next.fetch_add(1, Ordering::Relaxed);
+                    if k >= njobs {
+                        break;
+                    }
+                    let job = jobs[(k + offset) % njobs];
+                    if proc.is_none() {
+                        proc = spawn_child();
+                        if proc.is_none() {
+                            machinery.lock().unwrap().push("cannot spawn the worker process".into());
+                            stop.store(true, Ordering::Relaxed);
+                            break;
+                        }
+                    }
+                    let r = proc.as_mut().unwrap().run(&g_request(tier, &job), timeout);
+                    match r {
+                        JobResult::Done(v, h) => {
+                            let mut t = totals.lock().unwrap();
+                            absorb(&mut t, job.space, &v, h);
+                        }
+                        JobResult::Machinery(m) => {
+                            machinery.lock().unwrap().push(m);
+                            stop.store(true, Ordering::Relaxed);
+                        }
+                        other => {
+                            let how = failed(&other).unwrap_or_default();
+                            proc = None;
+                            let mut f = failures.lock().unwrap();
+                            f.push((job, how));
+                            if f.len() >= 12 {
+                                // the verdict is settled; do not grind through
+                                // thousands of crashing jobs
+                                stop.store(true, Ordering::Relaxed);
+                            }
+                        }
+                    }
+                }
+                if let Some(p) = proc {
+                    p.close();
+                }
+            });
+        }
+    });
+
+    let machinery = machinery.into_inner().unwrap();
+    if !machinery.is_empty() {
+        eprintln!("C03: machinery failure: {}", machinery.join("; "));
+        return 2;
+    }
+
+    let mut t = totals.into_inner().unwrap();
+    let mut failures = failures.into_inner().unwrap();
+    failures.sort_by_key(|(j, _)| (j.space.code(), j.lo));
+    let stopped_early = stop.load(Ordering::Relaxed);
+    let mut report = Report::new();
+    let mut violations: Vec<Violation> = Vec::new();
+
+    // abnormal exits / timeouts: narrow the first few down to the single input
+    let mut seen_inputs: Vec<Vec<u8>> = Vec::new();
+    let mut located = 0usize;
+    for (job, how) in failures.iter() {
+        // narrowing a time-out down costs two more time limits: do it once
+        let budget = if how.contains("time limit") { 1 } else { 3 };
+        if located < budget {
+            located += 1;
+            match locate(tier, *job, timeout) {
+                Ok((input, how1, item)) => {
+                    if seen_inputs.contains(&input) {
+                        continue;
+                    }
+                    seen_inputs.push(input.clone());
+                    let (want, steps) = refwire::decode_counting(&input);
+                    let clause = if how1.contains("time limit") { "timeout" } else { "abnormal-exit" };
+                    violations.push(Violation {
+                        clause: clause.into(),
+                        summary: format!(
+                            "{how1} while decoding {} [space {} item {item}]; reference: {} after examining {steps} octets",
+                            describe_input(&input),
+                            job.space.code(),
+                            short_debug(&want)
+                        ),
+                        replay: json!({"kind": "wire-input", "input_hex": hex(&input), "space": job.space.code(), "item": item}),
+                        slug: None,
+                    });
+                }
+                Err(e) => {
+                    eprintln!(
+                        "C03: machinery failure: job {} {}..{} failed ({how}) but could not be bisected: {e}",
+                        job.space.code(),
+                        job.lo,
+                        job.hi
+                    );
+                    return 2;
+                }
+            }
+        } else {
+            violations.push(Violation {
+                clause: if how.contains("time limit") { "timeout" } else { "abnormal-exit" }.into(),
+                summary: format!(
+                    "{how} in job {} items {}..{} (not narrowed down: {} jobs failed)",
+                    job.space.code(),
+                    job.lo,
+                    job.hi,
+                    failures.len()
+                ),
+                replay: json!({"kind": "wire-job", "space": job.space.code(), "lo": job.lo, "hi": job.hi, "tier": tier.name()}),
+                slug: None,
+            });
+        }
+    }
+
+    // in-band violations, shortest input first
+    t.viols.sort_by(|a, b| {
+        let ha = a.1["hex"].as_str().unwrap_or("");
+        let hb = b.1["hex"].as_str().unwrap_or("");
+        (a.1["clause"].as_str().unwrap_or(""), ha.len(), ha).cmp(&(b.1["clause"].as_str().unwrap_or(""), hb.len(), hb))
+    });
+    let mut per_clause: BTreeMap<String, usize> = BTreeMap::new();
+    for (space, v) in &t.viols {
+        let clause = v["clause"].as_str().unwrap_or("?").to_string();
+        let n = per_clause.entry(clause.clone()).or_insert(0);
+        *n += 1;
+        if *n > 5 {
+            continue;
+        }
+        let bytes = unhex(v["hex"].as_str().unwrap_or(""));
+        violations.push(Violation {
+            clause,
+            summary: format!(
+                "{} [{} / {}]: {}",
+                describe_input(&bytes),
+                space,
+                v["class"].as_str().unwrap_or(""),
+                v["text"].as_str().unwrap_or("")
+            ),
+            replay: json!({"kind": "wire-input", "input_hex": v["hex"], "space": space}),
+            slug: None,
+        });
+    }
+
+    t.hashes.sort_unstable();
+    t.hashes.dedup();
+    let distinct_hashed = t.hashes.len() as u64;
+
+    let capped = cap_hit.load(Ordering::Relaxed);
+    report.evaluations = t.n;
+    report.states = t.nontrivial_plain + distinct_hashed;
+    report.transitions = t.steps;
+    report.traces_validated = t.n;
+    report.distinct_nontrivial = t.nontrivial_plain + distinct_hashed;
+    report.rule = "an input is non-trivial when the decoder gets past the header into a section, i.e. it has >= 12 octets and a non-zero count (so at least one name is examined); distinct = inputs of the `tails` space (distinct by construction: mixed-radix index) + the number of distinct FNV-64 digests of the base messages, single in-place deviations and size-extreme inputs (sorted and de-duplicated in the parent). Truncations, byte substitutions and double deviations are evaluated and judged but NOT counted here because they are not de-duplicated (see nontrivial_not_deduplicated). states = the same distinct inputs; transitions = octets examined by the reference decoder over all inputs".into();
+    let mut samples = Vec::new();
+    for (space, item, which) in [
+        (Space::Tails, 3_000_011u64, 0usize),
+        (Space::Tails, 1_234_567, 0),
+        (Space::Singles, single_index(3, 6, 5, 5, 0, 1), 0),
+        (Space::Singles, single_index(3, 6, 5, 5, 0, 1), 9),
+        (Space::Pairs, 168 * 168 + 168 * 47 + 130, 0),
+        (Space::Extremes, 66, 0),
+    ] {
+        if let Some(s) = sample_of(space, tier, item, which) {
+            samples.push(s);
+        }
+    }
+    report.samples = samples;
+    report.bounds = json!({
+        "short": "all byte strings of length 0..2",
+        "tails": {
+            "header": "01 61 00 00 + counts",
+            "count_vectors": tail_vectors(tier).iter().map(|v| format!("{v:?}")).collect::<Vec<_>>(),
+            "alphabet": hex(&ALPHA12),
+            "max_tail_length": tail_maxlen(tier),
+        },
+        "grammar": {
+            "name_shapes": SHAPES.iter().map(|s| format!("{s:?}")).collect::<Vec<_>>(),
+            "types": TYPE_CODES,
+            "classes": CLASS_CODES,
+            "ttls": TTLS,
+            "singles": "0..1 question (any shape) + 1 record: owner shape x type x RDATA variant (name shape / opaque variant) x class x ttl",
+            "pairs": "0..1 question + 2 records: (owner shape x type)^2, RDATA variant derived from the other record; section split by index (quick) / all 6 splits (thorough)",
+            "triples": if tier == Tier::Thorough { "2 questions + 3 records: (owner shape x type)^3; base message and single in-place deviations, no truncations" } else { "not in the quick tier" },
+            "deviations": "label length 64/0x80/0xBF; pointer to self, forward, header offsets 0 and 11, own name start, own first label, previous RDATA; RDLENGTH +1/-1/0/65535; each count +1/-1/65535; truncation at every octet",
+            "deviation_bound": if tier == Tier::Thorough { "2 on singles and on every sixth pair message (patch+patch, patch+truncation); 1 elsewhere" } else { "1" },
+            "substitution_corpus": N_SUBST,
+        },
+        "extremes": {
+            "ladder_depths": if tier == Tier::Thorough { "every depth 1..max for 3 ladder kinds" } else { "1..64, max/2, max-1, max (+126..129 for labelled rungs) for 3 ladder kinds" },
+            "max_depth_plain": max_ladder_depth(0),
+            "max_depth_labelled": max_ladder_depth(1),
+            "name_lengths": "250..260 x {labels only, labels+pointer, pointer chain carrying labels}",
+        },
+        "items_per_space": items_total,
+        "inputs_per_space": t.per_space,
+        "index_combinations_denoting_no_message": t.skipped,
+        "jobs": njobs,
+        "jobs_completed": t.jobs_done,
+        "per_job_cpu_time_limit_s": timeout.as_secs(),
+        "per_job_wall_time_limit_s": timeout.as_secs() * 10,
+        "worker": "child process, one decoding thread with a 2 MiB stack",
+    });
+    report.exhaustive = !capped && !stopped_early && t.jobs_done as usize == njobs;
+    if capped {
+        report.extra.insert("cap_hit".into(), json!(format!("wall clock cap of {wall_cap} s reached after {} of {njobs} jobs", t.jobs_done)));
+    }
+    if stopped_early {
+        report.extra.insert("stopped_early".into(), json!(format!("{} jobs ended abnormally; exploration stopped", failures.len())));
+    }
+    report.outcome_histogram = t.hist.clone();
+    report.extra.insert("nontrivial_not_deduplicated".into(), json!(t.nontrivial_other));
+    report.extra.insert("violation_counts".into(), json!(t.viol_counts));
+    report.extra.insert("slowest_single_decode_us".into(), json!({"microseconds": t.max_us, "input_octets": t.max_us_len, "measured_on": "size extremes only"}));
+    report.assumptions = vec![
+        "pointer rule of the reference: a pointer must target an offset strictly before the start of the name fragment it occurs in".into(),
+        "trailing octets after the last section are accepted by both decoders (the statement does not forbid them)".into(),
+        "termination is judged by the per-job CPU-time limit of the worker process (and a wall-clock limit ten times as long), stack use by the 2 MiB stack of its decoding thread (release profile)".into(),
+        "the harness build of dns-types (release, opt-level 3) stands for the server's worker threads".into(),
+    ];
+    report.violations = violations;
+    finish(ctx, report)
+}
+
+pub fn replay(ctx: &Ctx, v: &Value) -> i32 {
+    let timeout = Duration::from_secs(60);
+    if v["kind"] == "wire-job" {
+        let space = Space::parse(v["space"].as_str().unwrap_or("")).unwrap_or(Space::Short);
+        let tier = if v["tier"] == "thorough" { Tier::Thorough } else { Tier::Quick };
+        let job = Job { space, lo: v["lo"].as_u64().unwrap_or(0), hi: v["hi"].as_u64().unwrap_or(0) };
+        return match locate(tier, job, timeout) {
+            Ok((input, how, item)) => {
+                println!("job bisected to item {item}: {how} on input {}", hex(&input));
+                println!("VIOLATION property={} replay=(replayed case)", ctx.id);
+                1
+            }
+            Err(e) => {
+                println!("job does not fail: {e}");
+                0
+            }
+        };
+    }
+    let input = unhex(v["input_hex"].as_str().unwrap_or(""));
+    println!("input: {}", describe_input(&input));
+    let (want, steps) = refwire::decode_counting(&input);
+    println!("reference:      {} (examined {steps} octets)", short_debug(&want));
+    let r = run_fresh(&x_request(std::slice::from_ref(&input)), timeout);
+    match r {
+        JobResult::Done(resp, _) => {
+            if let Some(d) = resp["details"].as_array().and_then(|a| a.first()) {
+                println!("implementation: {}", d["implementation"].as_str().unwrap_or("?"));
+            }
+            let bad = resp["viol_counts"].as_object().map(|m| !m.is_empty()).unwrap_or(false);
+            if bad {
+                for x in resp["viols"].as_array().cloned().unwrap_or_default() {
+                    println!("clause {}: {}", x["clause"].as_str().unwrap_or("?"), x["text"].as_str().unwrap_or(""));
+                }
+                println!("VIOLATION property={} replay=(replayed case)", ctx.id);
+                1
+            } else {
+                println!("replay: property holds on this case (slowest decode {} us)", resp["max_us"]);
+                0
+            }
+        }
+        other => {
+            println!("implementation: {}", failed(&other).unwrap_or_default());
+            println!("VIOLATION property={} replay=(replayed case)", ctx.id);
+            1
+        }
+    }
 }
